@@ -38,6 +38,9 @@ type fsig struct {
 
 var translated = map[string]*fsig{}
 
+// functions whose bodies are emitted one definition per top-level statement
+var splitBodies = map[string]bool{"Decoder.Skip": true}
+
 type ftr struct {
 	p      *pkgInfo
 	x      *xlate
@@ -743,7 +746,26 @@ func translateFunc(p *pkgInfo, name string, b *strings.Builder) []string {
 			}
 		}
 	}
-	body := t.block(fd.Body.List) // declares the locals as a side effect
+	// long bodies are emitted one definition per top-level statement (`<fn>.s1`, `<fn>.s2`, …) so that the bridge can
+	// prove a lemma per statement
+	split := splitBodies[goName]
+	var stmts []string
+	body := ""
+	if split {
+		for _, st := range fd.Body.List {
+			stmts = append(stmts, t.stmt(st))
+		}
+		for i := len(stmts) - 1; i >= 0; i-- {
+			ref := fmt.Sprintf("(%s.s%d fuel)", name, i+1)
+			if body == "" {
+				body = ref
+			} else {
+				body = fmt.Sprintf("(Go.seq %s\n    %s)", ref, body)
+			}
+		}
+	} else {
+		body = t.block(fd.Body.List) // declares the locals as a side effect
+	}
 	t.errs = append(t.errs, t.x.errs...)
 	if len(t.errs) > 0 {
 		return t.errs
@@ -810,6 +832,9 @@ func translateFunc(p *pkgInfo, name string, b *strings.Builder) []string {
 	fmt.Fprintf(b, "\nabbrev %s.R := %s\n\n", name, strings.Join(rts, " × "))
 	for _, l := range t.loops {
 		b.WriteString(l + "\n")
+	}
+	for i, st := range stmts {
+		fmt.Fprintf(b, "/-- statement %d of `%s` -/\ndef %s.s%d (fuel : Nat) : %s.St → Go.Out %s.St %s.R :=\n  %s\n\n", i+1, goName, name, i+1, name, name, name, st)
 	}
 	fmt.Fprintf(b, "/-- the body of `%s`, statement by statement -/\ndef %s.body (fuel : Nat) : %s.St → Go.Out %s.St %s.R :=\n  (Go.seq %s\n    %s)\n\n", name, name, name, name, name, body, end)
 	fmt.Fprintf(b, "def %s (fuel : Nat) %s : Go.Out %s.St %s.R :=\n  %s.body fuel { %s }\n\n", name, strings.Join(params, " "), name, name, name, strings.Join(inits, ", "))
